@@ -56,11 +56,13 @@ struct Mutex
 {
     int owner = -1;
     int depth = 0;
+    std::map<int, long> last_unlock; // thread -> scheduler step of its last unlock
 };
 struct Cond
 {
     std::vector<int> waiters;
     bool destroyed = false;
+    long destroy_step = 0;
 };
 struct Sem
 {
@@ -401,7 +403,37 @@ extern "C"
         }
         if (--mm.depth == 0)
             mm.owner = -1;
+        mm.last_unlock[t->id] = S().steps;
         return 0;
+    }
+    // A notification reaches a condition variable whose destructor has run. std::condition_variable
+    // has no visible constructor call, so a *new* object at the same (stack) address looks the
+    // same. It is the new object when the notifying thread holds, or has unlocked after the
+    // destruction, a mutex of the same enclosing object (igris::event keeps mutex and condition
+    // variable side by side): then the old lifetime is over and nothing is wrong. Otherwise the
+    // thread finished with the object's mutex before the owner destroyed it and touches it now.
+    static bool notify_hits_dead_object(sched::Scheduler &s, sched::Cond &cc, const void *c, int tid)
+    {
+        if (!cc.destroyed)
+            return false;
+        for (auto &kv : s.mutexes)
+        {
+            long dist = (const char *)kv.first - (const char *)c;
+            if (dist < -256 || dist > 256)
+                continue;
+            if (kv.second.owner == tid)
+            {
+                cc.destroyed = false;
+                return false;
+            }
+            auto it = kv.second.last_unlock.find(tid);
+            if (it != kv.second.last_unlock.end() && it->second > cc.destroy_step)
+            {
+                cc.destroyed = false;
+                return false;
+            }
+        }
+        return true;
     }
     static int cond_wait_common(pthread_cond_t *c, pthread_mutex_t *m)
     {
@@ -479,7 +511,7 @@ extern "C"
         yield_now();
         Scheduler &s = S();
         Cond &cc = s.conds[c];
-        if (cc.destroyed)
+        if (notify_hits_dead_object(s, cc, c, t->id))
             s.latch("signal_on_destroyed_condvar", "thread T" + std::to_string(t->id) + " signals a condition variable that its owner has already destroyed");
         if (!cc.waiters.empty())
         {
@@ -502,7 +534,7 @@ extern "C"
         yield_now();
         Scheduler &s = S();
         Cond &cc = s.conds[c];
-        if (cc.destroyed)
+        if (notify_hits_dead_object(s, cc, c, t->id))
             s.latch("signal_on_destroyed_condvar", "thread T" + std::to_string(t->id) + " notifies a condition variable that its owner has already destroyed");
         for (int w : cc.waiters)
             wake_waiter(s, w);
@@ -522,6 +554,7 @@ extern "C"
         if (!cc.waiters.empty())
             s.latch("condvar_destroyed_with_waiters", "a condition variable is destroyed while threads are parked on it");
         cc.destroyed = true;
+        cc.destroy_step = s.steps;
         return 0;
     }
 
